@@ -112,8 +112,12 @@ def r2_keys(rep, facts):
         for n in walk(b['body']):
             if n.get('k') == 'mcall' and n.get('name') == 'map_err' and n.get('args'):
                 ok, names = closure_sets_span_if_none(peel(n['args'][0]))
-                if 'add_key' in names:
-                    found.add('add_key')
+                clo = peel(n['args'][0])
+                if clo.get('k') == 'closure':
+                    for m, anc in with_ancestors(clo['body']):
+                        # the key is added on every error, whether or not it already has a span
+                        if m.get('k') == 'mcall' and m.get('name') == 'add_key' and not any(a.get('k') in ('if', 'match') for a in anc):
+                            found.add('add_key')
                 if ok:
                     found.add('set_span')
         rep.check(R, d.split(' as ')[0].lstrip('<') + '::' + last_seg(strip_generics(d)), want <= found, f'{sorted(found)}', f'`{d}` attaches {sorted(found)}, expected {sorted(want)}', facts.loc(b))
@@ -122,6 +126,45 @@ def r2_keys(rep, facts):
         b = facts.body(d)
         fb = any(n.get('k') == 'mcall' and n.get('name') == 'or_else' and peel(n['recv']).get('k') == 'mcall' and peel(n['recv']).get('name') == 'span' for n in walk(b['body']))
         rep.check(R, 'TableMapAccess::next_value_seed|span-fallback', fb, 'v.span().or_else(|| k.span())', 'the value span no longer falls back to the key span', facts.loc(b))
+
+
+TEXT_TYPES = ('&str', "&'_ str", '&[u8]', "&'_ [u8]")
+
+
+def r2c_source_kept(rep, facts):
+    R = rep.rule('C15/R2c', 'every entry point that builds a deserializer from text parses into ImDocument (which keeps item spans and the source text), '
+                 'never into DocumentMut (which drops both): otherwise decoding errors carry neither line / column nor a snippet although the text was available', floor=4)
+    n = 0
+    for d, b in sorted(facts.bodies.items()):
+        if not (d.startswith('toml_edit::de::') or d.startswith('<toml_edit::de::') or d.startswith('toml::de::') or d.startswith('<toml::de::')):
+            continue
+        if b['kind'] not in ('Fn', 'AssocFn') or '::test' in d:
+            continue
+        ptys = [p.get('t') or '' for p in b.get('params', []) if p.get('k') == 'p_bind']
+        f = facts.fns.get(d, {})
+        textual = any(t.replace("'_ ", '').replace("'de ", '').replace("'a ", '') in ('&str', '&[u8]') or t == 'S' for t in ptys)
+        if not textual:
+            continue
+        parsers = []
+        for x in walk(b['body']):
+            if x.get('k') in ('mcall', 'call'):
+                names = callee_all(x)
+                blob = ' '.join(names) + ' ' + ' '.join(x.get('gargs') or []) + ' ' + (x.get('t') or '')
+                nm = x.get('name') or last_seg(names[0] if names else '')
+                if nm in ('parse', 'from_str', 'parse_document') or nm == 'from_utf8':
+                    parsers.append((nm, blob))
+        if not parsers:
+            continue
+        docmut = [nm for nm, blob in parsers if 'DocumentMut' in blob and 'ImDocument' not in blob]
+        n += 1
+        rep.check(R, d, not docmut, 'parses into ImDocument / delegates to an entry point that does',
+                  f'`{d}` parses its text into DocumentMut: item spans and the source text are dropped before deserialization, so a type mismatch is reported '
+                  f'without location although the text was given', facts.loc(b))
+    # the conversions: only ImDocument carries raw text
+    for d, b in sorted(facts.bodies.items()):
+        if 'core::convert::From<toml_edit::document::ImDocument<S>>' in d and d.startswith('<toml_edit::de::Deserializer'):
+            ok = any(x.get('k') == 'call' and (peel(x.get('f', {})).get('path') or '').endswith('Option::Some') for x in walk(b['body']))
+            rep.check(R, d + '|raw', ok, 'raw: Some(text)', 'From<ImDocument> for Deserializer no longer keeps the source text', facts.loc(b))
 
 
 def r3_messages(rep, facts):
@@ -221,6 +264,8 @@ def rules(rep, facts):
     if 'serde' in feats:
         r1_span_attached(rep, facts)
         r2_keys(rep, facts)
+        if 'parse' in feats:
+            r2c_source_kept(rep, facts)
     if 'parse' in feats:
         r3_messages(rep, facts)
     r4_rendering(rep, facts)
